@@ -463,7 +463,7 @@ def build(tier):
                 k += 1
                 port = all(x.portable for x in pre) and tail.portable
                 D("TU%d" % k, "struct", False, fields=[("f%d" % i, x) for i, x in enumerate(pre)] + [("t", tail)],
-                  portable=port, default=all(x.default for x in pre))
+                  portable=port, default=all(x.default for x in pre) and tail.default)
         k = 0
         for tag in (None, "u8", "u16", "u32"):
             for a, b in rnd.sample(list(itertools.permutations(sized_pool, 2)), 40):
